@@ -797,7 +797,7 @@ fn push_prefix(
                 children.push_back(r);
                 Some(DomainTree {
                     label: label.clone(),
-                    data: offset as u16,
+                    data: u16::try_from(offset).unwrap_or(u16::MAX),
                     children,
                 })
             }
@@ -819,7 +819,8 @@ fn push_prefix(
                 push_label(v, label);
                 Some(DomainTree {
                     label: label.clone(),
-                    data: offset as u16,
+                    /* Offsets past 64KiB must not wrap around into the range a pointer can reach. */
+                    data: u16::try_from(offset).unwrap_or(u16::MAX),
                     children: std::collections::LinkedList::new(),
                 })
             }
